@@ -15,7 +15,7 @@ RULE = {"C09": "generated owner classes with 1-6 tunables (defaults of every sup
                "NetworkTables; distinct = hash of (definition, history)."}
 REQUIRED = {"C09": {"type:boolean": 50, "type:int": 50, "type:double": 50, "type:string": 50, "type:raw": 20, "type:struct:Rotation2d": 20,
                     "type:boolean[]": 20, "type:int[]": 20, "type:double[]": 20, "type:string[]": 20, "type:struct:Rotation2d[]": 10,
-                    "empty-hinted": 30, "writeDefault-true-overwrites": 50, "writeDefault-false-preserves": 50, "writeDefault-false-preserves-falsy": 10, "subtable": 100,
+                    "empty-hinted": 30, "writeDefault-true-overwrites": 50, "writeDefault-false-preserves": 50, "writeDefault-false-preserves-falsy": 10, "subtable": 100, "redefines-inherited-tunable": 30,
                     "owner:components": 100, "owner:autonomous": 50, "owner:root": 50, "via-magicrobot": 30,
                     "py-read-after-nt-write": 500, "nt-read-after-py-write": 500, "two-instances-independent": 100}}
 ASSUMPTIONS = {"C09": ["values written are always of the topic's own type (cross-type writes are rejected by NetworkTables itself)",
@@ -90,7 +90,8 @@ def gen_case(rng, uid):
     for j in range(nt):
         kind = rng.choice(KINDS)
         t = {"attr": f"t{j}{uid}", "kind": kind, "writeDefault": rng.random() < 0.6, "subtable": rng.choice([None, None, "sub", "a/b"]),
-             "as_tuple": rng.random() < 0.3, "spelling": rng.randrange(3), "preexisting": rng.random() < 0.4, "pre_falsy": rng.random() < 0.4}
+             "as_tuple": rng.random() < 0.3, "spelling": rng.randrange(3), "preexisting": rng.random() < 0.4, "pre_falsy": rng.random() < 0.4,
+             "overrides_inherited": rng.random() < 0.15}
         tun.append(t)
     via_robot = rng.random() < 0.2
     if via_robot:
@@ -128,7 +129,16 @@ def build_class(case, base=None):
     from wpimath.geometry import Rotation2d
     elem = {"int": int, "float": float, "str": str, "bool": bool}
     ns = {"tunable": tunable, "Sequence": Sequence, "ClassVar": ClassVar, "elem": elem, "Base": base or object}
-    lines = ["class Owner(Base):"]
+    # tunables that the owner class inherits and redefines (other default, same kind): the redefinition counts
+    inh = [t for t in case["tunables"] if t.get("overrides_inherited") and not t["kind"].startswith("empty:")]
+    lines = []
+    if inh:
+        lines.append("class Mid(Base):")
+        for t in inh:
+            ns["b_" + t["attr"]] = value_of(t["kind"], 77)
+            lines.append(f"    {t['attr']} = tunable(b_{t['attr']}, writeDefault={not t['writeDefault']!r})")
+        lines.append("Base = Mid")
+    lines.append("class Owner(Base):")
     for t in case["tunables"]:
         kw = f"writeDefault={t['writeDefault']!r}"
         if t["subtable"]:
@@ -275,6 +285,8 @@ def run_case(acc, case):
                     acc.ev("empty-hinted")
                 if t["subtable"]:
                     acc.ev("subtable")
+                if t.get("overrides_inherited") and not t["kind"].startswith("empty:"):
+                    acc.ev("redefines-inherited-tunable")
                 path = topic_path(inst, t)
                 if ts != TYPE_STR[t["kind"]]:
                     acc.violation("C09/topic-type", f"{path}: topic type {ts!r}, expected {TYPE_STR[t['kind']]!r} for a {t['kind']} tunable"
